@@ -85,6 +85,7 @@ PLAN = {
              "for every K x storage, min/max/sort minimisers, equal-length owned sequences; codecs that are Ord",
     ),
     "C11": dict(
+        apalache=dict(thorough=["ChunksInd"]),
         traces=[("sweep_c11", (1, 2)), ("long_c11", (1, 2)), ("c11", (1, None)), ("c11all", (None, 2))],
         seeds=dict(quick=1, thorough=5),
         mc=dict(quick=["MC_C11"]),
